@@ -10,6 +10,19 @@ RULE = ('datasets (sources, transforms, merges) grouped by one key field, two ke
 
 def run(tier, seed, res, lean):
     run_rel('C17', ['groupby', 'split'], tier, seed, res, lean, RULE)
+    # the container GroupBy._prepare_container builds against CM.Model.GroupBag (the node-level theorems node_groupby_* are about its edges)
+    from .. import suite_factory
+    from ..par import pmap
+    from ..runner import Violation
+    outs = pmap(suite_factory.run_group_shard, [(seed * 1789 + i + 1, 12 if tier == 'quick' else 80) for i in range(16)])
+    bad = [b for o in outs for b in o[1]]
+    res.coverage['groupby_containers'] = sum(o[0]['groups'] for o in outs)
+    res.coverage['groupby_rejected_previous'] = sum(sum(o[0]['errors'].values()) for o in outs)
+    if bad:
+        res.violations.append(Violation(
+            'c17-groupby-container-correspondence',
+            f'the container the real GroupBy builds and CM.Model.GroupBag.groupByBag differ: {str({k: v for k, v in bad[0].items() if k != "desc"})[:300]}',
+            {'suite': 'S-FACTORY/group', 'theorems': [t for t in lean['theorems'] if 'node_' in t], **bad[0]}, found_input=False))
 
 
 replay = replay_rel
